@@ -256,6 +256,35 @@ fn ledger_driver(out: &str, seed: u64, n: u64, len: u64) {
                 json!({"op":"pulse_health","acct":acct})
             };
             r.act(a);
+            // structural episodes: open-and-empty a position then close it; transfer / close / freeze accounts; tag changes
+            if rng.gen_range(0..40) == 0 {
+                let x: u64 = *pick(&mut rng, &[1u64, 999, 1_000_003]);
+                r.act(json!({"op":"deposit","acct":acct,"bank":bank,"amount":x}));
+                r.act(json!({"op":"withdraw","acct":acct,"bank":bank,"amount":x}));
+                r.act(json!({"op":"tick","dt":*pick(&mut rng, &[0i64, 60, 86400])}));
+                r.act(json!({"op":"close_balance","acct":acct,"bank":bank}));
+            }
+            if rng.gen_range(0..60) == 0 {
+                let newn = format!("N{}", r.events);
+                r.act(json!({"op":"transfer_account","acct":acct,"new_acct":newn,"new_authority":"U7"}));
+                r.act(json!({"op":"transfer_account","acct":acct,"new_acct":format!("{}b", newn),"new_authority":"U7"}));
+                r.act(json!({"op":"deposit","acct":acct,"bank":bank,"amount":5}));
+                r.act(json!({"op":"withdraw","acct":newn,"bank":bank,"amount":1,"signer":"U7"}));
+                r.act(json!({"op":"close_account","acct":acct}));
+            }
+            if rng.gen_range(0..80) == 0 {
+                r.act(json!({"op":"close_account","acct":acct}));
+            }
+            if rng.gen_range(0..80) == 0 {
+                r.act(json!({"op":"freeze","acct":acct,"frozen":true}));
+                r.act(json!({"op":"deposit","acct":acct,"bank":bank,"amount":3}));
+                r.act(json!({"op":"deposit","acct":acct,"bank":bank,"amount":3,"signer":"admin"}));
+                r.act(json!({"op":"close_account","acct":acct}));
+                r.act(json!({"op":"freeze","acct":acct,"frozen":false}));
+            }
+            if rng.gen_range(0..80) == 0 {
+                r.act(json!({"op":"configure_bank","bank":bank,"cfg":{"asset_tag": *pick(&mut rng, &[0u64, 1, 2])},"may_fail":true}));
+            }
         }
     }
     r.finish();
